@@ -33,8 +33,18 @@ def gen_limits():
 
 # ----------------------------------------------------------------- generators
 
+# one response per constructor that takes a free callback (or owns a descriptor), with the degenerate inputs:
+# 5 buffer_with_free_callback size 0, 6 buffer_with_free_callback_cls NULL/0, 7 iovec with no element, 8 iovec of empty
+# elements, 9 iovec, 10 callback of unknown size, 11 pipe, 12 file descriptor, 13 callback of size 0, 14 iovec with
+# empty elements in between.  A pipe / fd response "frees" by closing its descriptor (close() is interposed).
 RESP_SETUP = ["resp-create 1 kind=freecb size=5", "resp-create 2 kind=cb size=600000",
-              "resp-create 3 kind=upgrade", "resp-create 4 kind=cb size=5"]
+              "resp-create 3 kind=upgrade", "resp-create 4 kind=cb size=5",
+              "resp-create 5 kind=bufcb size=0", "resp-create 6 kind=freecbnull", "resp-create 7 kind=iov n=0",
+              "resp-create 8 kind=iov n=3 size=0", "resp-create 9 kind=iov n=2 size=7", "resp-create 10 kind=cbunk size=5",
+              "resp-create 11 kind=pipe size=5", "resp-create 12 kind=fd size=5", "resp-create 13 kind=cb size=0",
+              "resp-create 14 kind=iov n=3 size=5 mix=1"]
+ALL_RIDS = tuple(range(1, 15))
+SMALL_RIDS = [1, 4, 5, 6, 7, 8, 9, 10, 11, 12, 13, 14]
 SITES = ["ipnode", "conn", "addr", "pool"]
 
 
@@ -64,7 +74,7 @@ class Mirror:
         self.upg = []
         self.held = []
         self.cclosed = set()
-        self.resps = [1, 2, 4] + ([3] if cfg["upgrade"] else [])
+        self.resps = [1, 2, 4] + ([3] if cfg["upgrade"] else []) + SMALL_RIDS[2:]
 
 
 def cfg_line(c):
@@ -149,10 +159,16 @@ def gen_history(rng, name, modes, nops=None, listen=0):
             L.append(SETTLE)
         elif r < 0.70:
             c = rng.choice(m.open) if m.open and rng.random() < 0.85 else rng.choice(allc)
-            rid = rng.choice(m.resps + [1, 1, 4]) if rng.random() < 0.93 else rng.choice([1, 2, 3, 4])
+            rid = rng.choice(m.resps + [1, 1, 4]) if rng.random() < 0.93 else rng.choice(list(ALL_RIDS))
+            # a pipe can be read once: its response object serves one body (as an interim reply it is not read at all)
+            if rid == 11:
+                if getattr(m, "pipe_used", False):
+                    rid = 12
+                m.pipe_used = True
             kind = rng.choice(["reply", "reply", "reply", "replyc", "suspend" if cfg["suspend"] else "reply"])
             if rid == 3:
-                kind = "upgrade"
+                # the application closes the upgraded session inside its upgrade handler / later / never before stop
+                kind = rng.choice(["upgrade", "upgrade", "upgradec", "upgradec"])
             # (a client that stops reading blocks a big reply on the AF_UNIX pair only: loopback TCP buffers swallow it)
             # (and not in thread-per-connection mode as long as MHD_stop_daemon can hang there, see tpc_write_wait_bounded)
             if rid == 2 and rng.random() < 0.7 and not cfg.get("listen") and True:  # always, also in tpc mode (finding F39, repaired by 9f85107): a return of the stop hang must be reported
@@ -191,7 +207,7 @@ def gen_history(rng, name, modes, nops=None, listen=0):
                 # the application queues the response from outside the handler while the connection is suspended
                 if L[-1] != SETTLE:
                     L.append(SETTLE)
-                L.append("ext-queue %d %d" % (c, rng.choice(m.resps + [1, 4])))
+                L.append("ext-queue %d %d" % (c, rng.choice([x for x in m.resps if x != 11] + [1, 4])))
             L.append("resume %d" % c)
         elif r < 0.91 and m.upg:
             c = rng.choice(m.upg); m.upg.remove(c)
@@ -228,7 +244,7 @@ def gen_history(rng, name, modes, nops=None, listen=0):
             if m.next < 30:
                 L.append("arrive %d %d %d" % (m.next, script_addr(cfg, rng.choice([1, 2, 3, 0])), 1)); m.next += 1
     L.append("stop")
-    for rid in (1, 2, 3, 4):
+    for rid in ALL_RIDS:
         L.append("resp-drop %d" % rid)
     return L
 
@@ -252,7 +268,7 @@ def gen_allocfail_enum(cfgs):
                 for i in range(cfg["limit"]):
                     L.append("arrive %d %d 1" % (nid, 10 + i)); nid += 1
                 L += [SETTLE, "mark fresh-batch", "query", "stop"]
-                L += ["resp-drop %d" % r for r in (1, 2, 3, 4)]
+                L += ["resp-drop %d" % r for r in ALL_RIDS]
                 out.append(L)
     return out
 
@@ -275,7 +291,7 @@ def gen_stop_with_new(modes):
                         for k in range(n):
                             L.append("arrive %d %d 1" % (nid, 1 + k % 2)); nid += 1
                         L.append("stop")
-                        L += ["resp-drop %d" % r for r in (1, 2, 3, 4)]
+                        L += ["resp-drop %d" % r for r in ALL_RIDS]
                         out.append(L)
     return out
 
@@ -295,9 +311,9 @@ def gen_refsites(modes):
         "i_then_big_held": ["hold 0", "req 0 reply 2 4", SETTLE, "resp-drop 2", "resp-drop 4", "cclose 0"],
         "i_upgrade": ["req 0 upgrade 3 4 1", SETTLE, "resp-drop 3", "up-close 0"],
         "i_is_upgrade": ["req 0 reply 1 3"],
-        "i_unknown": ["req 0 reply 1 9"],
+        "i_unknown": ["req 0 reply 1 15"],
         "i_dropped": ["resp-drop 4", "req 0 reply 1 4"],
-        "final_unknown_after_i": ["req 0 reply 9 4"],
+        "final_unknown_after_i": ["req 0 reply 15 4"],
         "upgrade": ["req 0 upgrade 3", SETTLE, "up-close 0"],
         "upgrade_stop": ["req 0 upgrade 3", SETTLE],
         "error_reply": ["req 0 bad 0"],
@@ -305,13 +321,23 @@ def gen_refsites(modes):
         "suspend_i": ["req 0 suspend 1 4 4", SETTLE, "resume 0"],
         "suspend_ext": ["req 0 suspend 1", SETTLE, "ext-queue 0 4", SETTLE, "resume 0"],
         "suspend_ext_big": ["req 0 suspend 1", SETTLE, "hold 0", "ext-queue 0 2", "resp-drop 2", "resume 0", SETTLE, "cclose 0"],
-        "suspend_ext_refused": ["req 0 suspend 1 4", SETTLE, "ext-queue 0 3", "ext-queue 0 9", "resume 0"],
+        "suspend_ext_refused": ["req 0 suspend 1 4", SETTLE, "ext-queue 0 3", "ext-queue 0 15", "resume 0"],
         "suspend_ext_twice": ["req 0 suspend 1", SETTLE, "ext-queue 0 4", "ext-queue 0 1", "resume 0"],
         "shared3": ["hold 0", "hold 1", "hold 2", "req 0 reply 2 4", "req 1 reply 2", "req 2 reply 2 4 4", SETTLE, "resp-drop 2",
                     "cclose 0", SETTLE, "drain 1", SETTLE, "cclose 2"],
         "abort_in_body": ["hold 0", "req 0 reply 2 4", SETTLE, "cclose 0"],
         "keepalive_then_i": ["req 0 reply 1", SETTLE, "req 0 reply 4 1", SETTLE, "req 1 reply 1 4"],
+        "upgrade_close_inside": ["req 0 upgradec 3"],
+        "upgrade_close_inside_after_i": ["req 0 upgradec 3 4 7"],
+        "upgrade_close_inside_x3": ["req 0 upgradec 3", "req 1 upgradec 3", "req 2 upgradec 3 8"],
+        "upgrade_mixed_timing": ["req 0 upgradec 3", "req 1 upgrade 3", "req 2 upgrade 3", SETTLE, "up-close 1"],
+        "upgrade_never_used": [],
     }
+    # every constructor: queued never / once / as interim reply / by three connections at once
+    for rid in SMALL_RIDS[2:]:
+        sites["ctor%d_once" % rid] = ["req 0 reply %d" % rid]
+        sites["ctor%d_interim" % rid] = ["req 0 reply 1 %d %d" % (rid, rid)]
+        sites["ctor%d_shared" % rid] = ["req 0 reply %d" % rid, "req 1 reply %d %d" % (rid, rid), "req 2 replyc %d" % rid]
     out = []
     i = 0
     for mode in modes:
@@ -322,11 +348,14 @@ def gen_refsites(modes):
                     L = ["case rs%d_%s" % (i, name), cfg_line(cfg), "start"] + RESP_SETUP
                     i += 1
                     L += ["arrive 0 1 1", "arrive 1 101 1", "arrive 2 2 1", SETTLE] + ops + [SETTLE]
-                    drops = ["resp-drop %d" % r for r in (1, 2, 3, 4)]
+                    drops = ["resp-drop %d" % r for r in ALL_RIDS]
                     if early_drop:
                         L += drops
-                    L += [SETTLE, "resume 0", "up-close 0", SETTLE] + ["drain %d" % c for c in range(3)] \
-                        + ["cclose %d" % c for c in range(3)] + [SETTLE, SETTLE, "mark all-closed", "query", "stop"]
+                    # (two sites leave an upgraded session open until the daemon stops: no "everything closed" point there)
+                    never = name in ("upgrade_stop", "upgrade_mixed_timing")
+                    L += [SETTLE, "resume 0"] + ([] if never else ["up-close %d" % c for c in range(3)]) + [SETTLE] \
+                        + ["drain %d" % c for c in range(3)] + ([] if never else ["cclose %d" % c for c in range(3)]) \
+                        + [SETTLE, SETTLE] + ([] if never else ["mark all-closed"]) + ["query", "stop"]
                     L += drops
                     out.append(L)
     return out
@@ -345,7 +374,7 @@ def gen_abort_before_send(modes):
                 L = ["case ab%s%d" % ("e" if mode == "epoll" else "s", i), cfg_line(cfg), "start"] + RESP_SETUP
                 i += 1
                 L += ["arrive 0 1 1", SETTLE, req, "cclose 0", SETTLE, SETTLE, "up-close 0", SETTLE, "mark all-closed", "query", "stop"]
-                L += ["resp-drop %d" % r for r in (1, 2, 3, 4)]
+                L += ["resp-drop %d" % r for r in ALL_RIDS]
                 out.append(L)
     return out
 
@@ -368,7 +397,7 @@ def gen_listen(rng, modes, n):
                     L += ["cclose %d" % c for c in range(nid)] + [SETTLE, SETTLE, "accept-fail ENFILE", "mark all-closed", "query"]
                     for k in range(cfg["limit"]):
                         L.append("arrive %d %d 1" % (nid, script_addr(cfg, 10 + k))); nid += 1
-                    L += [SETTLE, "mark fresh-batch", "query", "stop"] + ["resp-drop %d" % r for r in (1, 2, 3, 4)]
+                    L += [SETTLE, "mark fresh-batch", "query", "stop"] + ["resp-drop %d" % r for r in ALL_RIDS]
                     out.append(L)
     for i in range(n):
         out.append(gen_history(rng, "lr%d" % i, modes, listen=1 + i % 2))
@@ -393,7 +422,7 @@ def gen_threads(rng, n):
             L += ["cclose %d" % c for c in range(nid)] + [SETTLE, SETTLE, "mark all-closed", "query"]
             for j in range(limit):
                 L += ["arrive %d %d 1" % (nid, 10 + j), SETTLE]; nid += 1
-            L += ["mark fresh-batch", "query", "stop"] + ["resp-drop %d" % r for r in (1, 2, 3, 4)]
+            L += ["mark fresh-batch", "query", "stop"] + ["resp-drop %d" % r for r in ALL_RIDS]
             out.append(L)
     if True:  # F39 repaired by 9f85107; always generated so that a regression is reported
         # stop while a connection thread waits for a client that does not read (hung before the fix)
@@ -401,7 +430,7 @@ def gen_threads(rng, n):
             cfg = {"mode": "tpc", "limit": 2, "perip": 0, "suspend": 0, "upgrade": 0, "nts": 0}
             out.append(["case tpchs%d" % drop, cfg_line(cfg), "start"] + RESP_SETUP
                        + ["arrive 0 1 1", "arrive 1 2 1", SETTLE, "hold 0", "req 0 reply 2 4", "req 1 reply 1", SETTLE]
-                       + (["resp-drop 2"] if drop else []) + ["stop"] + ["resp-drop %d" % r for r in (1, 2, 3, 4)])
+                       + (["resp-drop 2"] if drop else []) + ["stop"] + ["resp-drop %d" % r for r in ALL_RIDS])
     # MHD_start_daemon itself: the k-th thread cannot be created -> NULL, nothing left behind (LSan, thread count)
     for mode, pool in (("select-thr", 0), ("select-thr", 3), ("poll-thr", 4), ("epoll-thr", 2), ("tpc", 0)):
         for k in range(1, (pool or 1) + 1):
@@ -456,7 +485,7 @@ def gen_pool_family():
             for i in range(limit):
                 L += ["arrive %d %d 1" % (nid, 10 + i), SETTLE]; nid += 1
             L += ["mark fresh-batch", "query", "stop"]
-            L += ["resp-drop %d" % r for r in (1, 2, 3, 4)]
+            L += ["resp-drop %d" % r for r in ALL_RIDS]
             out.append(L)
     return out
 
@@ -487,7 +516,7 @@ def gen_exhaustive_small(modes):
                             for k in range(limit):
                                 L.append("arrive %d %d 1" % (4 + k, 10 + k))
                             L += [SETTLE, "mark fresh-batch", "query", "stop"]
-                            L += ["resp-drop %d" % r for r in (1, 2, 3, 4)]
+                            L += ["resp-drop %d" % r for r in ALL_RIDS]
                             out.append(L)
     return out
 
@@ -658,7 +687,7 @@ def shape(s):
 class Spec:
     props_module = "Mhd.Props.C09"
     lean_targets = ["Mhd.Props.C09", "drv_daemon"]
-    required_theorems = ["Mhd.C09.interim_replies_balanced", "Mhd.C09.stop_releases_every_response", "Mhd.C09.accept_failure_loses_nothing",
+    required_theorems = ["Mhd.C09.upgrade_close_timing", "Mhd.C09.interim_replies_balanced", "Mhd.C09.stop_releases_every_response", "Mhd.C09.accept_failure_loses_nothing",
                          "Mhd.C09.step_inv", "Mhd.C09.run_inv", "Mhd.C09.limits_hold", "Mhd.C09.capacity_restored", "Mhd.C09.close_all_then_round",
                          "Mhd.C09.stop_exactly_once", "Mhd.C09.lifecycle_balance", "Mhd.C09.refcount_refines",
                          "Mhd.C09.free_callback_at_zero", "Mhd.C09.free_callback_exactly_once",
@@ -906,6 +935,8 @@ class Spec:
                     feat["upgrade_after_102"] += w[2] == "upgrade"
                 elif w[0] == "req" and w[2] == "bad":
                     feat["req_bad_error_reply"] += 1
+                elif w[0] == "req" and w[2] == "upgradec":
+                    feat["upgrade_closed_inside_handler"] = feat.get("upgrade_closed_inside_handler", 0) + 1
                 elif w[0] == "ext-queue":
                     feat["ext_queue_while_suspended"] += 1
                 elif w[0] == "accept-fail":
@@ -932,7 +963,7 @@ class Spec:
                                   "MHD_start_daemon_va (split of the limit among pool workers)": "exhaustive: limits 1..12 x pool sizes 1..6 (select-thr) + sample in poll-thr/epoll-thr, white-box read of worker limits vs model",
                                   "MHD_add_connection with a worker pool": "9 fixed histories (3 polling modes x 3 limit/pool pairs), oracle only",
                                   "MHD_queue_response(102) / FULL_REPLY_SENT 102 branch / transmit_error_response_ / MHD_queue_response on a suspended connection / "
-                                  "MHD_response_execute_upgrade_ after 102": "%d site histories (26 sites x select/epoll x thread-safe or not x early/late drop) + random" % len(sites),
+                                  "MHD_response_execute_upgrade_ after 102": "%d site histories (acquisition/drop sites, every response constructor x {once, interim, shared}, upgrade close timings; each x select/epoll x thread-safe or not x early/late drop) + random" % len(sites),
                                   "MHD_accept_connection (accept4 on a real listen socket, IPv4 and dual stack; accept4 failures EMFILE/ENFILE/ECONNABORTED/EAGAIN)":
                                       "%d histories compared with the model (accept driven synchronously by the harness); limit gating of the listen fd inside the event loop (at_limit) not exercised" % len(lsn),
                                   "thread per connection / worker pools / MHD_create_named_thread_ failure (admission and MHD_start_daemon)": "%d histories, oracle + LSan + thread count, no model comparison" % len(thq)}}
